@@ -18,10 +18,6 @@ from datetime import datetime
 import numpy as np
 
 KWH = 60000.0
-NS = 3
-VOLT = [208, 240, 120]
-VL = 3120
-T = 5
 START = datetime(2021, 3, 1, 6, 30)
 LEVELS = [0, 8, 16, 24, 32]
 
@@ -32,6 +28,45 @@ def sid(s):
 
 def vid(i):
     return "sess-%d" % i
+
+
+def _lcm(xs):
+    from math import gcd
+    out = 1
+    for x in xs:
+        out = out * x // gcd(out, x)
+    return out
+
+
+class Cfg:
+    """The constants of one trace (NS, Volt, VL, T of AcnSim.tla) and the naming of stations and
+    sessions: spec station s is station_ids[s-1], spec session i is session_ids[i-1]."""
+
+    def __init__(self, volt, T, station_ids=None, session_ids=None):
+        self.volt = [int(v) for v in volt]
+        self.ns = len(self.volt)
+        self.T = int(T)
+        self.vl = _lcm(self.volt)
+        self.station_ids = list(station_ids) if station_ids else [sid(s) for s in range(1, self.ns + 1)]
+        self.session_ids = list(session_ids) if session_ids else None
+
+    def key(self):
+        return (self.ns, tuple(self.volt), self.vl, self.T)
+
+    def st(self, s):
+        return self.station_ids[s - 1]
+
+    def sess_index(self, session_id):
+        if self.session_ids is None:
+            return int(session_id.split("-")[1])
+        return self.session_ids.index(session_id) + 1
+
+    def sess_id(self, i):
+        return vid(i) if self.session_ids is None else self.session_ids[i - 1]
+
+
+DEFAULT_CFG = Cfg([208, 240, 120], 5)
+CFG_MENU = [([208, 240, 120], 5), ([208, 240, 120], 5), ([208, 208], 1), ([240, 120, 208, 220], 15), ([220, 220, 240], 3)]
 
 
 class OutOfScope(Exception):
@@ -71,24 +106,26 @@ class IntFun:
 class Recorder:
     """The trace sink: called at the simulator's trace points."""
 
-    def __init__(self, scn, menu):
+    def __init__(self, scn, menu, cfg=None):
         self.scn = scn
+        self.cfg = cfg or DEFAULT_CFG
         self.menu = menu          # this trace's schedules: canonical schedule -> index (1-based)
         self.lines = []
         self.nsess = len(scn["sess"])
 
     # -- projections (integers only)
     def idx(self, ev):
-        return int(ev.session_id.split("-")[1]) if ev is not None else 0
+        return self.cfg.sess_index(ev.session_id) if ev is not None else 0
 
     def occ(self, sim):
-        return [self.idx(sim.network.get_ev(sid(s))) for s in range(1, NS + 1)]
+        return [self.idx(sim.network.get_ev(self.cfg.st(s))) for s in range(1, self.cfg.ns + 1)]
 
     def ev_of(self, sim, i):
-        if vid(i) in sim.ev_history:
-            return sim.ev_history[vid(i)]
+        name = self.cfg.sess_id(i)
+        if name in sim.ev_history:
+            return sim.ev_history[name]
         for _, e in sim.event_queue.queue:
-            if e.event_type == "Plugin" and e.ev.session_id == vid(i):
+            if e.event_type == "Plugin" and e.ev.session_id == name:
                 return e.ev
         raise KeyError(i)
 
@@ -104,7 +141,7 @@ class Recorder:
         for k, v in schedule.items():
             if k not in sim.network.station_ids:
                 raise OutOfScope("scripted bad schedule")
-            rows[int(k.split("-")[1])] = tuple(self.integer(p, "pilot") for p in v)
+            rows[self.cfg.station_ids.index(k) + 1] = tuple(self.integer(p, "pilot") for p in v)
         lens = {len(v) for v in rows.values()}
         if len(lens) > 1:
             raise OutOfScope("ragged")
@@ -139,8 +176,8 @@ class Recorder:
         L = len(next(iter(sch.values()))) if len(sch) else 0
         t = sim.iteration
         P = []
-        for s in range(1, NS + 1):
-            j = sim.network.station_ids.index(sid(s))
+        for s in range(1, self.cfg.ns + 1):
+            j = sim.network.station_ids.index(self.cfg.st(s))
             P.append([self.integer(sim.pilot_signals[j, k], "pilot") for k in range(t, t + L)])
         self.lines.append({"a": "update", "t": t, "P": P})
 
@@ -149,11 +186,11 @@ class Recorder:
         ideal = self.scn["ideal"]
         frac = 0
         P, E, EP = [], [], []
-        for s in range(1, NS + 1):
-            j = sim.network.station_ids.index(sid(s))
+        for s in range(1, self.cfg.ns + 1):
+            j = sim.network.station_ids.index(self.cfg.st(s))
             P.append(self.integer(sim.pilot_signals[j, t], "pilot"))
-            EP.append(self.integer(sim.network._EVSEs[sid(s)].current_pilot, "pilot"))
-            e = float(sim.charging_rates[j, t]) * VOLT[s - 1] * T
+            EP.append(self.integer(sim.network._EVSEs[self.cfg.st(s)].current_pilot, "pilot"))
+            e = float(sim.charging_rates[j, t]) * self.cfg.volt[s - 1] * self.cfg.T
             if ideal and abs(e - round(e)) > 1e-6:
                 frac = 1
             E.append(int(round(e)) if ideal else self.round_in(e))
@@ -165,7 +202,7 @@ class Recorder:
                 frac = 1
             evE.append(int(round(a)))
             chg.append(int(round(b)))
-        pk = float(sim.peak) * VL * T
+        pk = float(sim.peak) * self.cfg.vl * self.cfg.T
         if ideal and abs(pk - round(pk)) > 1e-5:
             frac = 1
         self.lines.append({"a": "apply", "t": t, "occ": self.occ(sim), "P": P, "EP": EP, "E": E, "evE": evE, "chg": chg,
@@ -182,7 +219,8 @@ class Recorder:
 
 
 # ----------------------------------------------------------------------------------- scenarios
-def random_scenario(rng, ideal=True, max_sess=5):
+def random_scenario(rng, ideal=True, max_sess=5, cfg=None):
+    NS = (cfg or DEFAULT_CFG).ns
     n = rng.randint(1, max_sess)
     sess = []
     for _ in range(n * 3):
@@ -210,8 +248,9 @@ def random_scenario(rng, ideal=True, max_sess=5):
 class RandomScripted:
     """A scripted scheduler with random integer schedules; sometimes raises."""
 
-    def __init__(self, rng, crash_p):
+    def __init__(self, rng, crash_p, ns=3):
         from acnportal.algorithms import BaseAlgorithm
+        self.ns = ns
 
         outer = self
 
@@ -231,7 +270,7 @@ class RandomScripted:
         if c < 0.15:
             return {}
         L = rng.randint(1, 4)
-        sts = rng.sample(range(1, NS + 1), rng.randint(1, NS))
+        sts = rng.sample(range(1, self.ns + 1), rng.randint(1, self.ns))
         return {sid(s): [rng.choice(LEVELS) for _ in range(L)] for s in sts}
 
 
@@ -239,7 +278,9 @@ class ScriptedCrash(Exception):
     pass
 
 
-def build(scn, rng, sched_kind):
+def build(scn, rng, sched_kind, cfg=None):
+    cfg = cfg or DEFAULT_CFG
+    NS, VOLT, T = cfg.ns, cfg.volt, cfg.T
     from acnportal.acnsim import Simulator
     from acnportal.acnsim.events import EventQueue, PluginEvent, RecomputeEvent
     from acnportal.acnsim.models import EV, Battery, Linear2StageBattery, EVSE, FiniteRatesEVSE
@@ -251,7 +292,7 @@ def build(scn, rng, sched_kind):
     threeph = rng.random() < 0.5
     for s in range(1, NS + 1):
         evse = FiniteRatesEVSE(sid(s), LEVELS) if finite else EVSE(sid(s), max_rate=32)
-        net.register_evse(evse, VOLT[s - 1], [30, -90, 150][s - 1] if threeph else 0)
+        net.register_evse(evse, VOLT[s - 1], [30, -90, 150][(s - 1) % 3] if threeph else 0)
     if rng.random() < 0.7:
         net.add_constraint(Current([sid(s) for s in range(1, NS + 1)]), rng.choice([40.0, 56.0]), name="agg")
     events = []
@@ -277,7 +318,7 @@ def build(scn, rng, sched_kind):
     elif sched_kind == "rr":
         alg = RoundRobin(first_come_first_served, continuous_inc=1)
     else:
-        scripted = RandomScripted(rng, 0.15)
+        scripted = RandomScripted(rng, 0.15, NS)
         alg = scripted.alg
     alg.max_recompute = scn["mr"] if scn["mr"] else None
     sim = Simulator(net, alg, EventQueue(events), START, period=T, verbose=False,
@@ -289,15 +330,16 @@ def record_one(seed, ideal=True, **scn_extra):
     """Run one random scenario under the real code; returns (trace dict, info) or raises OutOfScope."""
     from acnportal.acnsim import Simulator, _verif
     rng = random.Random(seed)
-    scn = random_scenario(rng, ideal=ideal)
+    cfg = Cfg(*CFG_MENU[seed % len(CFG_MENU)])
+    scn = random_scenario(rng, ideal=ideal, cfg=cfg)
     scn.update(scn_extra)
     kind = rng.choice(["uncontrolled", "sorted", "rr", "scripted", "scripted"])
     np.random.seed(seed % (2 ** 31))
     with warnings.catch_warnings():
         warnings.simplefilter("ignore")
-        sim, alg = build(scn, rng, kind)
+        sim, alg = build(scn, rng, kind, cfg)
         menu = {}
-        rec = Recorder(scn, menu)
+        rec = Recorder(scn, menu, cfg)
         prev = _verif.set_sink(rec)
         try:
             for _ in range(5):
@@ -322,8 +364,9 @@ def record_one(seed, ideal=True, **scn_extra):
             _verif.set_sink(prev)
     scn_tla = {"sess": scn["sess"], "recomp": set(scn["recomp"]), "mr": scn["mr"], "ideal": scn["ideal"],
                "menu": menu_tla(menu)}
-    return {"scn": scn_tla, "ev": rec.lines}, {"seed": seed, "scheduler": kind, "ideal": ideal,
-                                                "lines": len(rec.lines), "final_t": sim.iteration}
+    return {"scn": scn_tla, "ev": rec.lines, "cfg": cfg}, {"seed": seed, "scheduler": kind, "ideal": ideal,
+                                                            "lines": len(rec.lines), "final_t": sim.iteration,
+                                                            "volt": cfg.volt, "T": cfg.T}
 
 
 # ----------------------------------------------------------------------------------- validation
@@ -343,12 +386,16 @@ def validate_batch(traces, timeout=1800):
     dict(reached, total, bad, pc, t) for trace i (0-based)."""
     import re
     from .tlc import run_tlc, TlcFailure
+    c0 = traces[0].get("cfg") or DEFAULT_CFG
+    if any((tr.get("cfg") or DEFAULT_CFG).key() != c0.key() for tr in traces):
+        raise TlcFailure("validate_batch: traces with different constants in one batch")
+    NS, VOLT, VL, T = c0.ns, c0.volt, c0.vl, c0.T
     H = max([l["t"] for tr in traces for l in tr["ev"] if "t" in l] + [1]) + 6
     max_sess = max(len(tr["scn"]["sess"]) for tr in traces)
     data = ["---- MODULE MC_AcnSimTrace ----", "EXTENDS AcnSimTrace",
             "TrVolt == %s" % tla(VOLT),
             "TrMenu == <<>>",
-            ] + ["Trace%d == %s" % (i + 1, tla(tr)) for i, tr in enumerate(traces)] + [
+            ] + ["Trace%d == %s" % (i + 1, tla({"scn": tr["scn"], "ev": tr["ev"]})) for i, tr in enumerate(traces)] + [
             "TrInit == " + " \\/ ".join("TInitFrom(%d, Trace%d)" % (i + 1, i + 1) for i in range(len(traces))),
             "TrVerdicts == Verdicts(%d)" % len(traces),
             "===="]
@@ -437,6 +484,7 @@ def _corrupt(tr):
     import copy
     c = copy.deepcopy({"scn": {k: v for k, v in tr["scn"].items() if k != "menu"}, "ev": tr["ev"]})
     c["scn"]["menu"] = tr["scn"]["menu"]
+    c["cfg"] = tr.get("cfg")
     for line in c["ev"]:
         if line["a"] == "apply" and any(line["occ"]):
             i = [o for o in line["occ"] if o][0]
@@ -456,7 +504,7 @@ def _validate_job(args):
              "wall_s": res.wall_s, "cmd": res.cmd, "depth": res.depth, "tail": res.stdout[-1500:]}, verdicts)
 
 
-def trace_validation(rep, prop, owners, seed, n, twostage_frac=0.3, noise=True, batch=40):
+def trace_validation(rep, prop, owners, seed, n, twostage_frac=0.3, noise=True, batch=40, repo_tests=False):
     """Record n executions of the real code, validate them with TLC, book the results in rep."""
     import random as _r
     from concurrent.futures import ThreadPoolExecutor
@@ -478,6 +526,16 @@ def trace_validation(rep, prop, owners, seed, n, twostage_frac=0.3, noise=True, 
         info.update(extra)
         traces.append(tr)
         infos.append(info)
+    if repo_tests:
+        # the simulations the repository's own tests build, run under the hook
+        for label, tr, why in record_repo_tests():
+            if tr is None:
+                rep.notes.append("repository test simulation %s not validated: %s" % (label, why))
+                continue
+            traces.append(tr)
+            infos.append({"seed": -1, "label": label, "scheduler": "repository test", "ideal": tr["scn"]["ideal"],
+                          "lines": len(tr["ev"]), "final_t": tr["ev"][-1].get("t"), "volt": tr["cfg"].volt,
+                          "T": tr["cfg"].T})
     # binding self-test: corrupted copies must be rejected
     corrupted = []
     for tr in traces[:6]:
@@ -485,7 +543,15 @@ def trace_validation(rep, prop, owners, seed, n, twostage_frac=0.3, noise=True, 
         if c is not None:
             corrupted.append(c)
     allt = traces + corrupted
-    chunks = [allt[i:i + batch] for i in range(0, len(allt), batch)]
+    # one TLC run per batch; a batch holds traces of one configuration (NS, Volt, T are constants)
+    groups = {}
+    for i, tr in enumerate(allt):
+        groups.setdefault((tr.get("cfg") or DEFAULT_CFG).key(), []).append(i)
+    chunk_idx = []
+    for key in sorted(groups):
+        g = groups[key]
+        chunk_idx += [g[i:i + batch] for i in range(0, len(g), batch)]
+    chunks = [[allt[i] for i in idxs] for idxs in chunk_idx]
     with ThreadPoolExecutor(max_workers=8) as ex:
         outs = list(ex.map(_validate_job, chunks))
     verdicts, states, gen = {}, 0, 0
@@ -499,7 +565,7 @@ def trace_validation(rep, prop, owners, seed, n, twostage_frac=0.3, noise=True, 
         rep.states += st["distinct"]
         rep.transitions += st["generated"]
         for k, x in v.items():
-            verdicts[ci * batch + k] = x
+            verdicts[chunk_idx[ci][k]] = x
     nbad = 0
     for i, tr in enumerate(allt):
         v = verdicts[i]
@@ -510,7 +576,7 @@ def trace_validation(rep, prop, owners, seed, n, twostage_frac=0.3, noise=True, 
             nbad += 1
             continue
         info = infos[i]
-        rep.count("trace-%d" % info["seed"], info["lines"] > 12)
+        rep.count("trace-%s" % (info.get("label") or info["seed"]), info["lines"] > 12)
         if accepted:
             rep.traces_accepted += 1
             continue
@@ -518,7 +584,7 @@ def trace_validation(rep, prop, owners, seed, n, twostage_frac=0.3, noise=True, 
         if own & set(owners):
             rep.violation("%s:trace:%s" % (sorted(own & set(owners))[0], c), explain(tr, v)[:700],
                           {"kind": "acnsim_trace", "info": info, "verdict": v,
-                           "trace": json.loads(json.dumps(tr, default=_jsonable))})
+                           "trace": json.loads(json.dumps({"scn": tr["scn"], "ev": tr["ev"]}, default=_jsonable))})
         else:
             for o in own:
                 rep.foreign_divergence(o)
@@ -542,10 +608,142 @@ def _jsonable(o):
 def replay_trace(payload):
     """./check --replay for a recorded trace violation: re-record the same seed and validate it."""
     info = payload["info"]
-    extra = {k: info[k] for k in ("noise", "tau", "calc") if k in info}
-    tr, _ = record_one(info["seed"], ideal=info["ideal"], **extra)
+    if info.get("label"):
+        got = [t for lab, t, why in record_repo_tests() if lab == info["label"]]
+        if not got or got[0] is None:
+            return {"clause": "not-recordable", "why": "the repository test simulation could not be recorded again"}
+        tr = got[0]
+    else:
+        extra = {k: info[k] for k in ("noise", "tau", "calc") if k in info}
+        tr, _ = record_one(info["seed"], ideal=info["ideal"], **extra)
     res, v = validate_batch([tr])
     v = v[0]
     if v["reached"] == v["total"] and not v["bad"]:
         return None
     return {"clause": clause(tr, v), "why": explain(tr, v)}
+
+
+# ----------------------------------------------------------------------------------- the repository's own tests
+class AutoRecorder(Recorder):
+    """A recorder that derives the scenario and the constants from the simulator itself at the first
+    trace point (used for simulations built by the repository's own tests)."""
+
+    def __init__(self):
+        self.cfg = None
+        self.scn = None
+        self.menu = {}
+        self.lines = []
+        self.sim0 = None
+
+    def __call__(self, point, sim, f):
+        if point.startswith("step_"):
+            raise OutOfScope("step() driven simulation")
+        if self.cfg is None:
+            if point != "loop" or sim.iteration != 0:
+                raise OutOfScope("recording started in the middle of a run")
+            self.configure(sim, f["events"])
+        elif sim is not self.sim0:
+            raise OutOfScope("a second simulator ran under the same recorder")
+        getattr(self, "on_" + point)(sim, f)
+
+    @staticmethod
+    def _int(x, what, up=None):
+        import math
+        v = float(x)
+        r = round(v)
+        if abs(v - r) <= 1e-7 * max(1.0, abs(r)):
+            return int(r), True
+        return int(math.ceil(v) if up else math.floor(v)), False
+
+    def configure(self, sim, popped):
+        from acnportal.acnsim.models import Battery
+        self.sim0 = sim
+        net = sim.network
+        stations = list(net.station_ids)
+        volt = []
+        for st in stations:
+            v, ok = self._int(net.voltages[st], "voltage")
+            if not ok:
+                raise OutOfScope("non-integer voltage")
+            volt.append(v)
+        T, ok = self._int(sim.period, "period")
+        if not ok or T <= 0:
+            raise OutOfScope("non-integer period")
+        evs, recomp = [], set()
+        for e in list(popped) + [e for _, e in sim.event_queue.queue]:
+            if e.event_type == "Plugin":
+                if e.timestamp != e.ev.arrival:
+                    raise OutOfScope("plug-in event not at the EV's arrival")
+                evs.append(e.ev)
+            elif e.event_type == "Recompute":
+                recomp.add(int(e.timestamp))
+            else:
+                raise OutOfScope("event of type %r" % e.event_type)
+        evs.sort(key=lambda ev: (ev.arrival, stations.index(ev.station_id)))
+        sess, exact = [], True
+        for ev in evs:
+            if ev.energy_delivered != 0:
+                raise OutOfScope("EV with energy delivered before the run")
+            b = ev._battery
+            req, ok1 = self._int(ev.requested_energy * KWH, "request")
+            cap, ok2 = self._int(b._capacity * KWH, "capacity", up=True)
+            init, ok3 = self._int(b._current_charge * KWH, "charge", up=False)
+            pw, ok4 = self._int(b._max_power * 1000.0, "power", up=True)
+            exact = exact and ok1 and ok2 and ok3 and ok4 and type(b) is Battery
+            sess.append({"st": stations.index(ev.station_id) + 1, "arr": int(ev.arrival), "dep": int(ev.departure),
+                         "req": req, "cap": cap, "init": init, "pw": pw})
+        for i, a in enumerate(sess):
+            if a["dep"] <= a["arr"] or a["arr"] < 0:
+                raise OutOfScope("session with departure <= arrival")
+            for b2 in sess[i + 1:]:
+                if a["st"] == b2["st"] and a["arr"] < b2["dep"] and b2["arr"] < a["dep"]:
+                    raise OutOfScope("overlapping sessions on a station")
+        self.cfg = Cfg(volt, T, stations, [ev.session_id for ev in evs])
+        mr = sim.max_recompute
+        self.scn = {"sess": sess, "recomp": recomp, "mr": int(mr) if mr else 0, "ideal": exact}
+        self.nsess = len(sess)
+
+    def trace(self):
+        scn = dict(self.scn)
+        scn["menu"] = menu_tla(self.menu)
+        return {"scn": scn, "ev": self.lines, "cfg": self.cfg}
+
+
+def _load_repo_test_module(name):
+    import importlib.util
+    import os
+    import acnportal
+    root = os.path.dirname(os.path.dirname(os.path.abspath(acnportal.__file__)))
+    path = os.path.join(root, "tests", name + ".py")
+    spec = importlib.util.spec_from_file_location("verif_repo_" + name, path)
+    mod = importlib.util.module_from_spec(spec)
+    spec.loader.exec_module(mod)
+    return mod
+
+
+REPO_TEST_SIMS = [("test_integration", "TestEmptyScheduleSim"), ("test_json_io", "TestJSONIO")]
+
+
+def record_repo_tests():
+    """Run the simulations the repository's own (offline) tests build, under the trace recorder.
+    Returns a list of (label, trace | None, reason)."""
+    from acnportal.acnsim import _verif
+    out = []
+    for modname, cls in REPO_TEST_SIMS:
+        label = "%s.%s.setUpClass" % (modname, cls)
+        rec = AutoRecorder()
+        prev = _verif.set_sink(rec)
+        try:
+            with warnings.catch_warnings():
+                warnings.simplefilter("ignore")
+                mod = _load_repo_test_module(modname)
+                getattr(mod, cls).setUpClass()
+            if rec.cfg is None:
+                out.append((label, None, "no simulation ran"))
+            else:
+                out.append((label, rec.trace(), ""))
+        except OutOfScope as e:
+            out.append((label, None, "out of the specification's scope: %s" % e))
+        finally:
+            _verif.set_sink(prev)
+    return out
